@@ -76,7 +76,7 @@ func c18Exec(c evCase, x *pbt.Ctx) error {
 	if err != nil {
 		return err
 	}
-	defer h.n.Stop()
+	defer h.n.Close()
 	w := h.w
 	refused := 0
 	ownKey := ""
